@@ -56,7 +56,7 @@ func outputChunkings(quick bool) []string {
 	if quick {
 		return []string{"1", "2", "3e"}
 	}
-	return []string{"1", "2", "3e", "3n", "4"}
+	return []string{"1", "2", "3e", "3z", "4"}
 }
 
 // enumerate yields every case, simplest first: per shape the programs without a failing node (all kind
@@ -84,8 +84,8 @@ func enumerate(quick bool, yield func(cs *Case) bool) {
 					continue
 				}
 				for _, oc := range ocs {
-					if oc == "3n" && isStr[pos] {
-						continue // a string has no "chunk without the key": same as 3e
+					if oc == "3z" && isStr[pos] {
+						continue // maps only: for a string it is the same as 3e
 					}
 					if !rec(pos+1, append(ks, k), append(os, oc)) {
 						return false
@@ -170,16 +170,16 @@ func main() {
 	c := harness.Init("C04")
 	c.Res.Rule = "a program = (shape, native paradigm set of every lambda position, output chunking of every position that has a native stream producer, optional failing position + failure mode); a state = a distinct canonical (program, graph input, input chunking); transitions = node bodies executed; evaluations = calls of Invoke/Stream/Collect/Transform on the compiled runnable; validated = calls that satisfied the oracle; non-trivial = states with at least one node that is not invoke-only, or a producer emitting >= 2 chunks, or an input of >= 2 chunks"
 	c.Res.Assumptions = []string{
-		"every node computes the same pure function in whichever paradigm it is written (strings: in+'.'+key; maps: {key: render(whole input)+'.'+key}); node bodies ignore their context",
-		"collect / transform bodies read their whole input before they compute; the transform of kind S+T is lazy (own goroutine feeding a pipe), every other body is finished when it returns",
-		"values are strings or maps with string leaves (nested through field mappings / output keys); strings concatenate by ++, maps per key",
+		"every node computes the same pure function in whichever paradigm it is written (strings: in+'.'+key; maps: {key: render(whole input)+'.'+key}; structs in the struct-mapping Workflow shapes: field-wise); node bodies ignore their context",
+		"collect / transform bodies read their whole input before they compute; the transform of kind S+T is lazy (own goroutine feeding a pipe), every other body is finished when it returns; state handlers in stream form read the stream they get and return its chunks plus one",
+		"values are strings, maps with string leaves (nested through field mappings / output keys) or a two-field struct with a registered field-wise concat function; strings concatenate by ++, maps per key",
 		"every streaming producer emits at least one chunk and its first chunk is never empty (zero-chunk producers are excluded: Invoke legitimately fails 'stream is empty')",
 		"all nodes that meet at a fan-in write distinct keys (duplicate-key fan-in is excluded: not defined by the statement)",
 		"a returned stream is read until EOF or the first error item and then closed",
 		"a failing node fails by returning the error from its body, or (native stream producers) by sending one good chunk and then an error item; any error counts as 'a failure is reported' (identity of the error is C13's business)",
 		"hangs are detected by a 120 s guard per program, panics by recover around each call and by the worker journal",
 	}
-	c.Res.Explanation = "Alphabet: shape menu {string lines of 2-3 nodes, map line, pass-through only / before / twice in the middle / at a fan-in / at a fan-out, fan-out to END, fan-in (any-predecessor and all-predecessor), diamond (4 nodes), value branch, stream branch reading only the first chunk (after a node and directly on START), WithInputKey/WithOutputKey line / both into END / into a fan-in, state pre+post handlers in value and stream form (4 mixes on a line, value and stream on a fan-in node), pass-through with a state handler, Workflow with MapFields/ToField/FromField (line with two mapped inputs, fan with nested ToField, whole-input FromField into a string node), nested graph, nested string graph behind input+output key, chain with a parallel stage (first / last), chain branch} x every assignment of {I, S, C, T, I+S, S+T, I+S+C+T} to the lambda positions (7^n, n<=4, complete) x output chunking of every native stream producer in {1, 2, 3 with an empty chunk} (thorough: + 3 with a key-less chunk, 4) x graph input chunking {1, 2, 3 with an empty chunk, per key for two-key inputs} (thorough: + key-less chunk, 4) x {Invoke, Stream, Collect, Transform} on the same compiled runnable; branch shapes with both inputs (each target taken). Plus, per shape, every kind assignment x every position failing x {error at call time, error item after the first chunk}. Model: composition of the pure node function along the shape. Oracle = the statement: Invoke(x) = model; concat(Stream(x)) = Invoke(x); Collect(chunks) = Invoke(concat chunks); concat(Transform(chunks)) likewise; with a failing node on the executed path every paradigm reports a failure (call error or error item); never a panic out of a call, never a hang. Thorough adds 4-node string line and all-predecessor diamond."
+	c.Res.Explanation = "Alphabet: shape menu {string lines of 2-3 nodes, map line; pass-through alone / first / twice in the middle / at a fan-in / at a fan-out; fan-out to END, fan-in (any-predecessor and all-predecessor), diamond (4 nodes); value branch, stream branch reading only the first chunk (after a node and directly on START), a node with a plain edge plus a (value / stream) branch, value / stream multi-branch selecting one or both targets; WithInputKey+WithOutputKey on a line / both into END / into a fan-in; state pre+post handlers in value and stream form (4 mixes on a line; value and stream on a fan-in node), pass-through with a state handler; graph input typed any (line, value branch, stream branch on START) and a sub-graph with output typed any feeding a fan-out (run-time type checks in value and stream form); Workflow with MapFields/ToField/FromField (two mapped inputs, fan with nested ToField, whole-input FromField into a string node), static values, control-only dependency, struct fields mapped in both directions; nested graph, nested string graph behind input+output key; chain with a parallel stage (first / last), chain branch} x every assignment of {I, S, C, T, I+S, S+T, I+S+C+T} to the lambda positions (7^n, n<=4, complete) x output chunking of every native stream producer in {1, 2, 3 with a chunk that is empty (string '' / map {} lacking the key)} (thorough: + map chunk with a zero-length value, 4 chunks) x graph input chunking {1, 2, 3 with an empty chunk, map chunk with zero-length values, per key for two-key inputs} (thorough: + 4) x {Invoke, Stream, Collect, Transform} on the same compiled runnable; branch shapes with both inputs (each target taken). Plus, per shape, every kind assignment x every position failing x {error at call time, error item after the first chunk}. Model: composition of the pure node function along the shape. Oracle = the statement: Invoke(x) = model; concat(Stream(x)) = Invoke(x); Collect(chunks) = Invoke(concat chunks); concat(Transform(chunks)) likewise; with a failing node on the executed path every paradigm reports a failure (call error or error item); never a panic out of a call, never a hang. Thorough adds the 4-node string line and the all-predecessor diamond."
 
 	quick := c.Quick()
 	if v := c.LoadReplay(); v != nil {
@@ -251,8 +251,8 @@ func main() {
 			c.Count("native_body_calls_"+p, stt.native[i])
 		}
 		if len(fs) == 0 {
-			if len(c.Res.Samples) < 6 && (c.Res.Scenarios%997 == 1) {
-				c.Sample(name)
+			if c.Res.Scenarios%997 == 1 {
+				c.Sample(name) // the harness keeps the first few
 			}
 			return true
 		}
